@@ -193,12 +193,21 @@ BraceInTypedefComment(buf) ==
                          ELSE IF c = "#" THEN [a EXCEPT !.cmt = TRUE] ELSE a,
            [cmt |-> FALSE, hit |-> FALSE], buf).hit
 
+(* a trailing comment (first '#' outside double quotes) whose body contains another '#' or an odd    *)
+(* number of double quotes: pydl documents these as unsupported (known finding D-C02-3)              *)
+HostileTrailingComment(line) ==
+  LET r == FoldLeft(LAMBDA a, c : IF a.cmt THEN [a EXCEPT !.hash = a.hash \/ c = "#", !.odd = IF c = DQ THEN ~a.odd ELSE a.odd]
+                                  ELSE IF c = DQ THEN [a EXCEPT !.inq = ~a.inq]
+                                  ELSE IF c = "#" /\ ~a.inq THEN [a EXCEPT !.cmt = TRUE] ELSE a,
+                    [cmt |-> FALSE, inq |-> FALSE, hash |-> FALSE, odd |-> FALSE], line)
+  IN r.cmt /\ (r.hash \/ r.odd)
+
 PRInit == [mode |-> "top", buf |-> <<>>, pairs |-> <<>>, enums |-> <<>>, structs |-> <<>>, rows |-> <<>>, notes |-> {}]
 StructIndex(structs, name) == SelectInSeq(structs, LAMBDA s : s.name = name)
 
 Missing == <<"<missing>">>      \* a row with fewer cells than columns (malformed; SpecParse stays total)
 
-PRLine(a, line) ==
+PRLine0(a, line) ==
   LET s == Strip(line) IN
   IF a.mode = "td" \/ (a.mode = "top" /\ IsTypedefStart(line)) THEN
      LET buf == IF a.mode = "td" THEN a.buf \o <<NL>> \o line ELSE line IN
@@ -221,6 +230,12 @@ PRLine(a, line) ==
         ELSE
            LET rest == SubSeq(s, Len(key) + 1, Len(s))
            IN [a EXCEPT !.pairs = Append(a.pairs, <<key, Strip(CutComment(rest))>>)]
+
+PRLine(a, line) ==
+  LET b == PRLine0(a, line)
+      s == Strip(line)
+  IN IF a.mode = "top" /\ ~IsTypedefStart(line) /\ s # <<>> /\ HostileTrailingComment(s) /\ Head(s) # "#"
+     THEN [b EXCEPT !.notes = @ \cup {"hostile-trailing-comment"}] ELSE b
 
 (* the width a char column reads back with: the declared one, or for char[] the longest value *)
 CellLens(col, cell) == IF col.alen > 0 THEN {Len(cell[k]) : k \in 1..Len(cell)} ELSE {Len(cell)}
